@@ -266,7 +266,12 @@ def binding (B : Nat) : Trace.Binding (proto B) :=
       | .done r => some r
       | _ => none
     silentFld := fun f => decide (3 ≤ f)
-    opaqueFld := fun f => decide (f = 2) }
+    opaqueFld := fun f => decide (f = 2)
+    -- declared orders of concurrent_object_arena.h
+    reqOrder := fun l => match l with
+      | .gLoadAlloc _ _ => 2 | .gTblLoad _ _ _ _ _ => 2 | .gTblStore _ _ _ => 3 | .gStoreAlloc _ _ _ => 3
+      | .gCas _ _ => 3 | .gConstruct _ _ _ => 2 | .ixLoad => 2 | .dtLoad => 2
+      | _ => 0 }
 
 /-- state right after `ConcurrentObjectArena(B)`: one buffer allocated, table of two entries -/
 def init (B : Nat) : State (proto B) :=
